@@ -1,6 +1,7 @@
 package main
 
 import (
+	"golang.org/x/tools/go/ssa"
 	"fmt"
 	"os"
 	"sort"
@@ -17,5 +18,38 @@ func init() {
 			fmt.Fprintln(os.Stderr, k)
 		}
 		r.OkTrivial("debug", "loaded", 0)
+	})
+}
+
+func init() {
+	register("DEBUGPRED", func(r *Run) {
+		fn := r.P.Fn(os.Getenv("DBG_FN"))
+		ts := newTS(r.P, sfidSpec)
+		c := &tsCtx{fn: fn, fa: r.P.FA(fn), rootFn: fn}
+		for _, b := range fn.Blocks {
+			if ifi, ok := b.Instrs[len(b.Instrs)-1].(*ssa.If); ok {
+				k, neg := ts.predKey(c, ifi.Cond)
+				fmt.Fprintf(os.Stderr, "block %d: %s neg=%v retestable=%v\n", b.Index, k, neg, ts.retestable(c, k))
+			}
+		}
+		r.OkTrivial("debug", "x", 0)
+	})
+}
+
+func init() {
+	register("DEBUGCLOB", func(r *Run) {
+		fn := r.P.Fn(os.Getenv("DBG_FN"))
+		fa := r.P.FA(fn)
+		eachInstr(fn, func(in ssa.Instruction) {
+			if a, ok := in.(*ssa.Alloc); ok {
+				c := addrClass(a)
+				vi := fa.verInfoFor(c)
+				fmt.Fprintf(os.Stderr, "alloc %s (%s) class %s: %d clobbers\n", a.Name(), a.Comment, c, len(vi.clob))
+				for ci, id := range vi.clob {
+					fmt.Fprintf(os.Stderr, "    v%d: block %d: %s\n", id, ci.Block().Index, ci.String())
+				}
+			}
+		})
+		r.OkTrivial("debug", "x", 0)
 	})
 }
